@@ -12,3 +12,5 @@ open MtailVerif.C04
 #print axioms MtailVerif.C04.codegenAfter_skeletons
 #print axioms MtailVerif.C04.checkerBefore_skeletons
 #print axioms MtailVerif.C04.checkerAfter_skeletons
+#print axioms MtailVerif.C04.f_codegen_codegen_skeletons
+#print axioms MtailVerif.C04.f_vm_vm_skeletons
